@@ -26,6 +26,7 @@ Definition table_write (mem : disk) (a : Z) (data : list byte) : disk :=
                           else dk_get mem x).
 
 Record rank_state := mkrs { rs_nb : nbstate; rs_slots : list (Z * Z) }.   (* slot -> stored request id *)
+(* the tag of a request (reported in the completion events) is the script line that posted it *)
 Record world := mkw { w_ranks : list rank_state; w_file : disk; w_hint : swaphint; w_fmt : Z; w_lo : Z; w_map : fmap }.
 
 Definition init_world (np : Z) (h : swaphint) (fmt lo : Z) : world :=
@@ -131,8 +132,8 @@ Definition step (w : world) (o : op) : world * list (list Z) :=
                     end in
       let '(st', id, rc) := if negb (argerr =? NC_NOERR) then (rs_nb rs, NC_REQ_NULL, argerr) else
                             match f with
-                            | FVarm s c t => post_varm (rs_nb rs) k g s c t xaddr data flag slot
-                            | FVarn parts => post_varn (rs_nb rs) k g parts xaddr data flag slot
+                            | FVarm s c t => post_varm (rs_nb rs) k g s c t xaddr data flag ln
+                            | FVarn parts => post_varn (rs_nb rs) k g parts xaddr data flag ln
                             end in
       let posted := negb (id =? NC_REQ_NULL) in
       (* speed only: keep the posted bytes in a table instead of behind a list lookup *)
